@@ -501,8 +501,10 @@ func (fc *FuncCtx) evalIndex(env *Env, x EIndex) Val {
 		return Val{T: fc.at(u.Elem(), fc.get(env.st, ek), v.T, i), Ty: u.Elem()}
 	case *types.Map:
 		k := fc.eval(env, x.I)
-		_, vk := fc.mapComps(u)
-		return Val{T: "(select (select " + fc.get(env.st, vk) + " " + v.T + ") " + k.T + ")", Ty: u.Elem()}
+		dk, vk := fc.mapComps(u)
+		// Go semantics: the zero value for a missing key (or a nil map)
+		in := "(and (not (= " + v.T + " 0)) (select (select " + fc.get(env.st, dk) + " " + v.T + ") " + k.T + "))"
+		return Val{T: "(ite " + in + " (select (select " + fc.get(env.st, vk) + " " + v.T + ") " + k.T + ") " + fc.S.Zero(u.Elem()) + ")", Ty: u.Elem()}
 	case *types.Array:
 		i := fc.evalInt(env, x.I)
 		return Val{T: "(select " + v.T + " " + i + ")", Ty: u.Elem()}
@@ -820,6 +822,23 @@ func (fc *FuncCtx) lenOf(env *Env, v Val) string {
 }
 
 func (fc *FuncCtx) evalMethodCall(env *Env, sel ESel, argsE []Expr) Val {
+	// package-qualified function: pkg.F(args)
+	if id, ok := sel.X.(EIdent); ok {
+		_, bound := env.vars[id.Name]
+		if !bound && env.lets[id.Name] == nil && (env.at == nil || fc.resolveLocal(id.Name, env.at) == nil) && fc.params[id.Name].T == "" {
+			for _, p := range fc.V.Prog.AllPackages() {
+				if p.Pkg.Name() == id.Name {
+					if f, ok := p.Members[sel.Name].(*ssa.Function); ok {
+						var args []Val
+						for _, a := range argsE {
+							args = append(args, fc.eval(env, a))
+						}
+						return fc.pureGoCall(f, args)
+					}
+				}
+			}
+		}
+	}
 	recv := fc.eval(env, sel.X)
 	if recv.Ty == nil {
 		specFail("method call on untyped value: %s", sel)
